@@ -1,7 +1,8 @@
 CFG = dict(
     theorems=["C15.nfa_accepts_iff_lang", "C15.compileNode_correct", "C15.emitted_match_valid",
               "C15.skip_past_last_row_disjoint", "C15.match_starts_increasing", "C15.match_number_sequential",
-              "C15.flush_emits_accepting", "C15.cep_partition_isolation", "C15.facts_cep"],
+              "C15.flush_emits_accepting", "C15.cep_partition_isolation", "C15.valid_match_explored",
+              "C15.cep_complete_longest", "C15.facts_cep"],
     lean_modules=["SsqlVerif.Props.C15", "SsqlVerif.Audit.C15"],
     rule="one case = one query (pattern tree over <= 4 variables from the quantifier's grammar incl. PERMUTE, groups, {n,m}, "
          "reluctant variants and shapes Compile rejects; DEFINE over the current row, PREV and one aggregate, with forced or "
@@ -9,13 +10,12 @@ CFG = dict(
          "over 1-3 partitions, run on cep.Engine directly (observables per Process/Flush) or through SQL (Execute/Emit/Stop); "
          "distinct = distinct (cfg, op list)",
     unproved=[
-        "C15.cep_complete_longest : for greedy quantifiers with no guard in play, after a final Flush the matches reported for a "
-        "partition are exactly the greedy leftmost-longest scan of its rows (no valid match omitted, longest chosen, SKIP rule "
-        "applied). Stated in Props/C15.lean as a `def … : Prop`; NOT proved. Covered by a search: the brute-force reference "
-        "matcher `Spec.holds` is evaluated on the implementation's output for every generated (pattern, stream) pair.",
-        "Spec.walk (the executable reference matcher used by the oracle) = Spec.Lang / Spec.ValidMatch (the declarative "
-        "definitions the theorems use): not proved; both are structural on the same pattern tree.",
-        "closure completeness (every epsilon-reachable state is in `closure`): not proved (only needed for completeness).",
+        "C15.reference_matcher_exact : the executable reference matcher the oracle runs (Spec.matchesFrom / Spec.walk, brute force "
+        "by recursion on the pattern) enumerates exactly the valid matches of the declarative definition (Spec.ValidMatch = word of "
+        "Spec.Lang + DEFINE + WITHIN). Stated in Props/C15.lean as a `def … : Prop`; NOT proved. The proved theorems speak about "
+        "Spec.ValidMatch; the run-time oracle (a search over generated (pattern, stream) pairs) uses Spec.walk.",
+        "reluctant mode: only validity, SKIP/MATCH_NUMBER discipline and isolation are proved (they hold for both modes); "
+        "shortest-match / completeness is neither claimed by the code nor proved.",
     ],
     assumptions=[
         "guards are not hit: maxRuns / capPending / partition LRU eviction / the wall-clock sweeper are not modelled; generated "
@@ -38,11 +38,13 @@ META = dict(
          "language; every match the engine model emits over any history is a non-empty run of consecutive rows of its own partition "
          "whose classification is a word of the PATTERN with every DEFINE satisfied against the match so far and within WITHIN; "
          "matches of a partition are reported leftmost-first, never share a row under SKIP PAST LAST ROW, and MATCH_NUMBER counts "
-         "1,2,3..; Flush accounts for every accepting unfinished run; other partitions' rows never matter. The engine model is tied to "
+         "1,2,3..; Flush accounts for every accepting unfinished run; other partitions' rows never matter; and (greedy quantifiers, guards "
+         "out of play, rows then Stop) every valid match is decided by a reported one: nothing valid is omitted except by the SKIP rule, "
+         "starts are leftmost, the reported match is the longest for its start. The engine model is tied to "
          "cep.Engine (direct and through SQL, ONE/ALL ROWS PER MATCH) by differential correspondence on generated (pattern, stream) "
-         "pairs; completeness/longest is not proved and is searched by a brute-force reference matcher evaluated on the implementation's output.",
+         "pairs, on which a brute-force reference matcher (search) is also evaluated against the implementation's output.",
     note="Trusted: Lean kernel; hand-written model (tied by correspondence, not verified); harness, hook cep/verif_hooks_c15.go, "
          "driver-side DEFINE/MEASURES evaluators. Three defects found by the check and fixed in the repo (per-partition sequence "
          "numbers; accepted-but-extendable run kept as candidate; emitGreedy waits for earlier live starts). Guards (maxRuns, "
-         "capPending, LRU, sweeper) outside the model; cep_complete_longest unproved (search only).",
+         "capPending, LRU, sweeper) outside the model; the reference matcher of the oracle is not proved equal to the declarative spec.",
 )
